@@ -5,7 +5,11 @@ TB = ("Trusted: Lean 4.33.0 kernel; axioms propext/Classical.choice/Quot.sound o
 TEXTS = {
     "C20": {
         "text": "Sync-range clause proved for all (begin,end,fetch) over Nat (C20_ranges_partition_holds: exact ascending cover, non-empty ranges, length <= fetch+1); "
-                "model run against the real calcRangeHeight on exhaustive small and random large triples; model-free monitor re-checks the partition on the real output.",
+                "model run against the real calcRangeHeight on exhaustive small and random large triples; model-free monitor re-checks the partition on the real output. "
+                "Raft apply loop (Model/Order.lean: entriesToApply, publishEntries/mint, reportState, maybeTriggerSnapshot, restart): for EVERY sequence of Ready batches (any entries: duplicates, replays, gaps, stale heights), "
+                "snapshots, reports, executor takes and crash/restarts, the executor is handed exactly ledger+1, ledger+2, ... — consecutive, ascending, none twice (C20_delivery_consecutive, invariant `Good`: the minted queue "
+                "continues the ledger). The other half ('no unexecuted entry is skipped') is false of the code: C20_snapshot_ahead_skips_unexecuted is the recorded finding as a kernel-checked witness. "
+                "The model is run against the real etcdraft node (order engine: real raft storage, crash / restart at every point).",
         "note": TB + " uint64 wrap-around outside end+fetch < 2^64 is not covered.",
         "technique": "Lean 4 theorem over an executable model + differential correspondence with the Go code",
     },
